@@ -374,7 +374,9 @@ class IntroVisitorIndirect(ast.NodeVisitor):
         self._start_mod = start_mod
         self._gctx = gctx
         self._function_var_names = set(function_var_names)
-        self._store_names: Set[LocalVar] = {current_fun_name}
+        # The name of the current function is not part of the names already seen: a function that
+        # refers to itself by name (for example to pass itself to another function) is recursive.
+        self._store_names: Set[LocalVar] = set()
         self._call_stack = call_stack
         # All the calls to a load and subsequent function calls, ordered
         self.results: List[Union[FunctionIndirectInteractions, DDSPath]] = []
